@@ -60,6 +60,10 @@ type OracleSet struct {
 	NoReload        bool // C11a: no reload / command after start-up
 	Capacity        bool // C11b: in-capacity endpoint changes do not reload; slot invariants at load
 	Converge        bool // C12: after faults stop, bounded-time convergence
+	Routing         bool // C03: evaluator vs reference router at sync points
+	TLSCerts        bool // C15: SNI evaluator vs TLS reference at sync points
+	ClassSelect     bool // C08: contributing ingresses == documented selection
+	ExtAuth         bool // C18: protected paths are intercepted or denied
 	Property        string
 }
 
@@ -421,6 +425,18 @@ func (r *Run) syncPoint(note string) {
 	}
 	if r.or.EffectiveAtSync || r.or.EffectiveStep {
 		r.checkEffective(r.or.Property, "sync-point")
+	}
+	if r.or.Routing {
+		r.checkRouting()
+	}
+	if r.or.TLSCerts {
+		r.checkTLSCerts()
+	}
+	if r.or.ClassSelect {
+		r.checkClassSelection()
+	}
+	if r.or.ExtAuth {
+		r.checkExtAuth()
 	}
 }
 
